@@ -1,0 +1,211 @@
+//go:build verif
+
+package protocol
+
+// Machine-checked contracts (govc, see /verif/DESIGN.md). Comment-only file.
+
+//@ property C12
+
+//@ func (apiType).minVersion
+//@   pure
+//@ func (apiType).maxVersion
+//@   pure
+//@ func (ApiKey).apiType
+//@   pure
+//@   assume the API registry (apiTypes) is written only during package initialisation (Register is called from init functions)
+//@ func (ApiKey).MinVersion
+//@   pure
+//@ func (ApiKey).MaxVersion
+//@   pure
+
+//@ func (ApiKey).SelectVersion
+//@   let lo = k.MinVersion()
+//@   let hi = k.MaxVersion()
+//@   requires lo <= hi
+//@   requires minVersion <= maxVersion
+//@   ensures max(lo, minVersion) <= min(hi, maxVersion) ==> result == min(hi, maxVersion)
+//@   ensures max(lo, minVersion) <= min(hi, maxVersion) ==> minVersion <= result && result <= maxVersion && lo <= result && result <= hi
+
+//@ property C20 C17
+
+// ---- reflection-backed accessors: trusted (reflect / unsafe are outside the verifier's reach) ----
+//@ func (array).length
+//@   pure
+//@   trusted reflect: length of the backing slice
+//@ func makeArray
+//@   trusted reflect.MakeSlice(t, n, n): panics if n < 0, allocates n elements
+//@   option allocates n
+//@   requires n >= 0
+//@   ensures result.length() == n
+//@ func (array).index
+//@   trusted reflect.Value.Index: panics unless 0 <= i < len
+//@   requires 0 <= i && i < a.length()
+//@ func (value).fieldByIndex
+//@   trusted reflect: field lookup on a well-typed value (indexes come from the type's own field table)
+//@ func (value).iface
+//@   trusted reflect
+//@ func (value).setBool
+//@   trusted reflect setter on a well-typed value: no effect on memory the verifier models
+//@ func (value).setInt8
+//@   trusted reflect setter
+//@ func (value).setInt16
+//@   trusted reflect setter
+//@ func (value).setInt32
+//@   trusted reflect setter
+//@ func (value).setInt64
+//@   trusted reflect setter
+//@ func (value).setFloat64
+//@   trusted reflect setter
+//@ func (value).setString
+//@   trusted reflect setter
+//@ func (value).setBytes
+//@   trusted reflect setter
+//@ func (value).setArray
+//@   trusted reflect setter
+//@ func bytesToString
+//@   trusted unsafe cast []byte -> string without copy
+//@   ensures len(result) == len(b)
+
+// ---- the decoder: representation invariant  d.remain >= 0  (bytes of the frame still to be consumed) ----
+
+//@ functype decodeFunc
+//@   requires 0 <= $0.remain && $0.remain <= 0x7fffffff
+//@   modifies $0.remain, $0.err, $0.crc32, $0.buffer, region($rpos)
+//@   ensures $0.remain >= 0 && $0.remain <= old($0.remain)
+//@   ensures old($0.err) != nil ==> $0.err == old($0.err)
+
+//@ func (*decoder).Read
+//@   requires 0 <= d.remain && d.remain <= 0x7fffffff
+//@   modifies d.remain, d.crc32, elems(b), region($rpos)
+//@   ensures 0 <= result0 && result0 <= len(b) && result0 <= old(d.remain) && d.remain == old(d.remain) - result0
+//@   ensures old(d.err) != nil ==> result0 == 0 && result1 == old(d.err)
+
+//@ func (*decoder).setError
+//@   requires 0 <= d.remain && d.remain <= 0x7fffffff
+//@   modifies d.remain, d.err, d.crc32, region($rpos)
+//@   ensures d.remain >= 0 && d.remain <= old(d.remain)
+//@   ensures old(d.err) != nil ==> d.err == old(d.err) && d.remain == old(d.remain)
+//@   ensures old(d.err) == nil && err != nil ==> d.err == err
+//@   ensures err == nil ==> d.err == old(d.err) && d.remain == old(d.remain)
+
+//@ func (*decoder).discardAll
+//@   requires 0 <= d.remain && d.remain <= 0x7fffffff
+//@   modifies d.remain, d.err, d.crc32, region($rpos)
+//@   ensures d.remain >= 0 && d.remain <= old(d.remain)
+//@   ensures old(d.err) != nil ==> d.err == old(d.err)
+
+//@ func (*decoder).discard
+//@   requires 0 <= d.remain && d.remain <= 0x7fffffff
+//@   modifies d.remain, d.err, d.crc32, region($rpos)
+//@   ensures d.remain >= 0 && d.remain <= old(d.remain)
+//@   ensures old(d.err) != nil ==> d.err == old(d.err)
+
+//@ func (*decoder).read
+//@   option allocbound max(d.remain, 32767)
+//@   requires 0 <= d.remain && d.remain <= 0x7fffffff
+//@   modifies d.remain, d.err, d.crc32, region($rpos)
+//@   ensures d.remain >= 0 && d.remain <= old(d.remain) && (len(result) <= n || len(result) == 0)
+//@   ensures old(d.err) != nil ==> d.err == old(d.err)
+//@   ensures d.err == nil ==> len(result) == n && d.remain == old(d.remain) - n
+
+//@ func (*decoder).readFull
+//@   requires 0 <= d.remain && d.remain <= 0x7fffffff
+//@   modifies d.remain, d.err, d.crc32, elems(b), region($rpos)
+//@   ensures d.remain >= 0 && d.remain <= old(d.remain)
+//@   ensures old(d.err) != nil ==> d.err == old(d.err)
+//@   ensures result ==> d.remain == old(d.remain) - len(b) && d.err == old(d.err)
+//@   ensures !result && len(b) > 0 ==> d.err != nil
+
+//@ func (*decoder).readByte
+//@   option as decodeFunc0
+//@ functype decodeFunc0
+//@   requires 0 <= $0.remain && $0.remain <= 0x7fffffff
+//@   modifies $0.remain, $0.err, $0.crc32, $0.buffer, region($rpos)
+//@   ensures $0.remain >= 0 && $0.remain <= old($0.remain)
+//@   ensures old($0.err) != nil ==> $0.err == old($0.err)
+//@ func (*decoder).readBool
+//@   option as decodeFunc0
+//@ func (*decoder).readInt8
+//@   option as decodeFunc0
+//@ func (*decoder).readInt16
+//@   option as decodeFunc0
+//@ func (*decoder).readInt32
+//@   option as decodeFunc0
+//@ func (*decoder).readInt64
+//@   option as decodeFunc0
+//@ func (*decoder).readFloat64
+//@   option as decodeFunc0
+//@ func (*decoder).readVarInt
+//@   option as decodeFunc0
+//@   loop 0 invariant d.remain >= 0 && d.remain <= old(d.remain) && n <= 11 && (old(d.err) != nil ==> d.err == old(d.err))
+//@   loop 0 decreases n
+//@ func (*decoder).readUnsignedVarInt
+//@   option as decodeFunc0
+//@   loop 0 invariant d.remain >= 0 && d.remain <= old(d.remain) && n <= 11 && (old(d.err) != nil ==> d.err == old(d.err))
+//@   loop 0 decreases n
+//@ func (*decoder).readString
+//@   option as decodeFunc0
+//@ func (*decoder).readVarString
+//@   option as decodeFunc0
+//@ func (*decoder).readCompactString
+//@   option as decodeFunc0
+//@ func (*decoder).readBytes
+//@   option as decodeFunc0
+//@ func (*decoder).readVarBytes
+//@   option as decodeFunc0
+//@ func (*decoder).readCompactBytes
+//@   option as decodeFunc0
+
+//@ func (*decoder).decodeBool
+//@   option as decodeFunc
+//@ func (*decoder).decodeInt8
+//@   option as decodeFunc
+//@ func (*decoder).decodeInt16
+//@   option as decodeFunc
+//@ func (*decoder).decodeInt32
+//@   option as decodeFunc
+//@ func (*decoder).decodeInt64
+//@   option as decodeFunc
+//@ func (*decoder).decodeFloat64
+//@   option as decodeFunc
+//@ func (*decoder).decodeString
+//@   option as decodeFunc
+//@ func (*decoder).decodeCompactString
+//@   option as decodeFunc
+//@ func (*decoder).decodeBytes
+//@   option as decodeFunc
+//@ func (*decoder).decodeCompactBytes
+//@   option as decodeFunc
+
+//@ func (*decoder).decodeArray
+//@   option as decodeFunc
+//@   option allocbound max(d.remain, 32767)
+//@   loop 0 invariant d.remain >= 0 && d.remain <= old(d.remain) && 0 <= i && i <= int(n) && a.length() == int(n) && (old(d.err) != nil ==> d.err == old(d.err))
+//@   loop 0 decreases int(n) - i
+//@ func (*decoder).decodeCompactArray
+//@   option as decodeFunc
+//@   option allocbound max(d.remain, 32767)
+//@   loop 0 invariant d.remain >= 0 && d.remain <= old(d.remain) && 0 <= i && i <= int(n-1) && a.length() == int(n-1) && (old(d.err) != nil ==> d.err == old(d.err))
+//@   loop 0 decreases int(n-1) - i
+
+//@ iface discarder.Discard
+//@   trusted bufio.Reader.Discard / protocol.Conn.Discard: skips at most n bytes
+//@   modifies region($rpos)
+//@   ensures 0 <= result0 && result0 <= $1
+
+//@ func (*decoder).writeTo
+//@   requires 0 <= d.remain && d.remain <= 0x7fffffff && n >= 0
+//@   modifies d.remain, d.err, d.crc32, region($rpos)
+//@   ensures d.remain >= 0 && d.remain <= old(d.remain)
+//@   ensures old(d.err) != nil ==> d.err == old(d.err)
+
+//@ func readInt8
+//@   requires len(b) >= 1
+//@ func readInt16
+//@   requires len(b) >= 2
+//@ func readInt32
+//@   requires len(b) >= 4
+//@ func readInt64
+//@   requires len(b) >= 8
+//@ func readFloat64
+//@   requires len(b) >= 8
